@@ -54,7 +54,8 @@ KwText(kw) ==       \* kw: a sequence of "key=value" strings
              J(q) == IF Len(q) = 1 THEN q[1] ELSE q[1] \o "," \o J(Tail(q))
          IN ":" \o J(kw)
 KwChoices == {<<>>, <<"noise=0">>, <<"seed=3">>, <<"num_per_decade=2">>, <<"noise=0.5", "seed=7">>,
-              <<"log_max_f=3", "log_min_f=1", "num_per_decade=3">>}
+              <<"log_max_f=3", "log_min_f=1", "num_per_decade=3">>, <<"log_min_f=-1", "num_per_decade=2">>,
+              <<"noise=5e-2", "seed=11", "num_per_decade=2">>, <<"log_max_f=2.5", "log_min_f=-0.5", "num_per_decade=4">>}
 SpecConfigs == [cmd : {"spec"}, ident : Idents, kw : KwChoices]
 SpecText(c) == c.ident \o KwText(c.kw)
 \* the split recovers the identifier for every identifier/kwargs combination
